@@ -188,6 +188,13 @@ def definition_converters_from_words(words, converter_registry, converter_cache)
                 'Error constructing definition type "%s": %s: %s%s'
                 % (call_expression, e.__class__.__name__, e, words[0].where_str())
             )
+        if isinstance(converters_instance, type) or not callable(
+            getattr(converters_instance, "from_words", None)
+        ):
+            raise RuntimeError(
+                'Error constructing definition type "%s": not a converter object%s'
+                % (call_expression, words[0].where_str())
+            )
     else:
         import_path = flds[0] + "_phil_converters"
         if len(flds) == 1:
